@@ -14,15 +14,15 @@ import (
 
 type solverDef struct {
 	name string
-	args func(file string, timeoutMs int) []string
+	args func(timeoutMs int) []string
 	bin  string
 }
 
 var solvers = []solverDef{
-	{name: "z3-5.1.0", bin: "z3-new", args: func(f string, t int) []string { return []string{"-smt2", fmt.Sprintf("-t:%d", t), f} }},
-	{name: "z3-4.8.12", bin: "/usr/bin/z3", args: func(f string, t int) []string { return []string{"-smt2", fmt.Sprintf("-t:%d", t), f} }},
-	{name: "cvc5-1.0", bin: "cvc5", args: func(f string, t int) []string {
-		return []string{"--lang=smt2", "--strings-exp", "--incremental", fmt.Sprintf("--tlimit-per=%d", t), f}
+	{name: "z3-5.1.0", bin: "z3-new", args: func(t int) []string { return []string{"-smt2", "-in", fmt.Sprintf("-t:%d", t)} }},
+	{name: "z3-4.8.12", bin: "/usr/bin/z3", args: func(t int) []string { return []string{"-smt2", "-in", fmt.Sprintf("-t:%d", t)} }},
+	{name: "cvc5-1.0", bin: "cvc5", args: func(t int) []string {
+		return []string{"--lang=smt2", "--strings-exp", fmt.Sprintf("--tlimit-per=%d", t)}
 	}},
 }
 
@@ -30,18 +30,21 @@ const smtHeader = "(set-option :produce-models true)\n(set-logic ALL)\n"
 
 type SolveOpts struct {
 	WorkDir   string
+	Keep      bool
 	TimeoutMs int
 	Cross     bool // cross-check failures on the other solvers
-	Chunk     int
-	Par       int
+	Batch     int
+	KeepOb    string
 }
 
 var solveSem chan struct{}
 
-func runSolver(s solverDef, file string, timeoutMs int, hard time.Duration) (string, float64, error) {
+func runSolver(s solverDef, input string, timeoutMs int) (string, float64, error) {
+	hard := time.Duration(timeoutMs+15000) * time.Millisecond
 	ctx, cancel := context.WithTimeout(context.Background(), hard)
 	defer cancel()
-	cmd := exec.CommandContext(ctx, s.bin, s.args(file, timeoutMs)...)
+	cmd := exec.CommandContext(ctx, s.bin, s.args(timeoutMs)...)
+	cmd.Stdin = strings.NewReader(input)
 	var out bytes.Buffer
 	cmd.Stdout = &out
 	cmd.Stderr = &out
@@ -55,137 +58,124 @@ func runSolver(s solverDef, file string, timeoutMs int, hard time.Duration) (str
 	return out.String(), secs, nil
 }
 
-// solveFunc discharges the obligations of one function.
+// solveFunc discharges the obligations of one function. Obligations are first tried in batches
+// (one query proving a group of goals at once, restricted to the blocks that can reach them);
+// members of a batch that is not proved are then decided one by one, racing the other solvers.
 func solveFunc(key string, vs *VCSet, opts SolveOpts) float64 {
 	if len(vs.Obs) == 0 {
 		return 0
 	}
-	dir := filepath.Join(opts.WorkDir, sanitize(key))
-	os.MkdirAll(dir, 0o755)
-	chunk := opts.Chunk
-	if chunk <= 0 {
-		chunk = 40
-	}
-	var wg sync.WaitGroup
 	var mu sync.Mutex
 	total := 0.0
-	for start := 0; start < len(vs.Obs); start += chunk {
-		end := start + chunk
-		if end > len(vs.Obs) {
-			end = len(vs.Obs)
+	add := func(s float64) { mu.Lock(); total += s; mu.Unlock() }
+	if opts.Keep {
+		dir := filepath.Join(opts.WorkDir, sanitize(key))
+		os.MkdirAll(dir, 0o755)
+		os.WriteFile(filepath.Join(dir, "all.smt2"), []byte(smtHeader+vs.queryText(nil)), 0o644)
+		var sb strings.Builder
+		for i, ob := range vs.Obs {
+			sb.WriteString(fmt.Sprintf("; ob %d %s block %d\n(assert %s)\n", i, ob.Name, ob.Block, ob.Query))
+			if opts.KeepOb != "" && strings.Contains(ob.Name, opts.KeepOb) {
+				os.WriteFile(filepath.Join(dir, fmt.Sprintf("ob%d.smt2", i)), []byte(smtHeader+vs.queryText([]*Obligation{ob})+"(check-sat)\n"), 0o644)
+			}
 		}
-		obs := vs.Obs[start:end]
-		ci := start / chunk
-		wg.Add(1)
-		go func() {
-			defer wg.Done()
-			solveSem <- struct{}{}
-			defer func() { <-solveSem }()
-			var sb strings.Builder
-			sb.WriteString(smtHeader)
-			sb.WriteString(vs.Prelude)
-			for i, ob := range obs {
-				sb.WriteString(fmt.Sprintf("(echo \"ob %d\")\n(push 1)\n%s\n(check-sat)\n(pop 1)\n", i, ob.Query))
-			}
-			file := filepath.Join(dir, fmt.Sprintf("chunk%d.smt2", ci))
-			os.WriteFile(file, []byte(sb.String()), 0o644)
-			hard := time.Duration(opts.TimeoutMs*len(obs)+30000) * time.Millisecond
-			out, secs, err := runSolver(solvers[0], file, opts.TimeoutMs, hard)
-			mu.Lock()
-			total += secs
-			mu.Unlock()
-			results := parseIncremental(out, len(obs))
-			for i, ob := range obs {
-				ob.Solver = solvers[0].name
-				ob.Secs = secs / float64(len(obs))
-				ob.Status = results[i]
-				if err != nil && ob.Status == "" {
-					ob.Status = "timeout"
-				}
-				if ob.Status == "" {
-					ob.Status = "error"
-					ob.Model = firstLines(out, 5)
-				}
-			}
-		}()
+		os.WriteFile(filepath.Join(dir, "queries.smt2"), []byte(sb.String()), 0o644)
 	}
-	wg.Wait()
-	// individual re-runs for everything that is not in its expected state
-	var wg2 sync.WaitGroup
-	for i, ob := range vs.Obs {
+	single := func(ob *Obligation) {
+		solveSem <- struct{}{}
+		defer func() { <-solveSem }()
 		want := "unsat"
 		if ob.Cover {
 			want = "sat"
 		}
-		if ob.Status == want {
-			continue
+		body := smtHeader + vs.queryText([]*Obligation{ob}) + "(check-sat)\n"
+		order := []int{0, 1, 2}
+		if !opts.Cross {
+			order = []int{0}
 		}
-		i, ob := i, ob
-		wg2.Add(1)
-		go func() {
-			defer wg2.Done()
-			solveSem <- struct{}{}
-			defer func() { <-solveSem }()
-			file := filepath.Join(dir, fmt.Sprintf("ob%d.smt2", i))
-			body := smtHeader + vs.Prelude + ob.Query + "\n(check-sat)\n"
-			os.WriteFile(file, []byte(body), 0o644)
-			order := []int{0, 1, 2}
-			if !opts.Cross {
-				order = []int{0}
+		for _, si := range order {
+			s := solvers[si]
+			out, secs, err := runSolver(s, body, opts.TimeoutMs)
+			add(secs)
+			st := firstWord(out)
+			if err != nil {
+				st = "timeout"
 			}
-			for _, si := range order {
-				s := solvers[si]
-				out, secs, err := runSolver(s, file, opts.TimeoutMs, time.Duration(opts.TimeoutMs+15000)*time.Millisecond)
-				mu.Lock()
-				total += secs
-				mu.Unlock()
-				st := firstWord(out)
-				if err != nil {
-					st = "timeout"
-				}
-				if st == want {
-					ob.Status, ob.Solver, ob.Secs = st, s.name, secs
+			if st == want {
+				ob.Status, ob.Solver, ob.Secs = st, s.name, secs
+				return
+			}
+			if ob.Cover && st != "unsat" && !strings.HasPrefix(st, "error") {
+				// reachability could not be refuted: not vacuous (quantified goals rarely yield "sat")
+				ob.Status, ob.Solver, ob.Secs = "sat", s.name+"("+st+")", secs
+				return
+			}
+			if si == 0 {
+				ob.Status, ob.Solver, ob.Secs = st, s.name, secs
+			}
+			if st == "sat" && !ob.Cover {
+				mo, _, _ := runSolver(s, body+"(get-model)\n", opts.TimeoutMs)
+				ob.Model = mo
+				ob.Status, ob.Solver = "sat", s.name
+				return // a model is a definite answer; no need to ask the other solvers
+			}
+			if st == "unsat" && ob.Cover {
+				return
+			}
+		}
+	}
+	var wg sync.WaitGroup
+	var batch []*Obligation
+	flush := func() {
+		if len(batch) == 0 {
+			return
+		}
+		obs := batch
+		batch = nil
+		wg.Add(1)
+		go func() {
+			defer wg.Done()
+			if len(obs) > 1 {
+				solveSem <- struct{}{}
+				body := smtHeader + vs.queryText(obs) + "(check-sat)\n"
+				out, secs, err := runSolver(solvers[0], body, opts.TimeoutMs)
+				<-solveSem
+				add(secs)
+				if err == nil && firstWord(out) == "unsat" {
+					for _, ob := range obs {
+						ob.Status, ob.Solver, ob.Secs = "unsat", solvers[0].name, secs/float64(len(obs))
+					}
 					return
 				}
-				if si == 0 {
-					ob.Status, ob.Secs = st, secs
-				}
-				if st == "sat" && !ob.Cover && ob.Model == "" {
-					// fetch a model from this solver
-					mfile := filepath.Join(dir, fmt.Sprintf("ob%d.model.smt2", i))
-					os.WriteFile(mfile, []byte(body+"(get-model)\n"), 0o644)
-					mo, _, _ := runSolver(s, mfile, opts.TimeoutMs, time.Duration(opts.TimeoutMs+15000)*time.Millisecond)
-					ob.Model = mo
-					ob.Status, ob.Solver = "sat", s.name
-				}
 			}
+			var wg2 sync.WaitGroup
+			for _, ob := range obs {
+				ob := ob
+				wg2.Add(1)
+				go func() { defer wg2.Done(); single(ob) }()
+			}
+			wg2.Wait()
 		}()
 	}
-	wg2.Wait()
-	return total
-}
-
-func parseIncremental(out string, n int) []string {
-	res := make([]string, n)
-	cur := -1
-	for _, ln := range strings.Split(out, "\n") {
-		ln = strings.TrimSpace(ln)
-		if strings.HasPrefix(ln, "ob ") || strings.HasPrefix(ln, "\"ob ") {
-			fmt.Sscanf(strings.Trim(ln, "\""), "ob %d", &cur)
+	bsize := opts.Batch
+	if bsize <= 0 {
+		bsize = 12
+	}
+	for _, ob := range vs.Obs {
+		if ob.Cover {
+			ob := ob
+			wg.Add(1)
+			go func() { defer wg.Done(); single(ob) }()
 			continue
 		}
-		if cur >= 0 && cur < n && res[cur] == "" {
-			switch ln {
-			case "sat", "unsat", "unknown", "timeout":
-				res[cur] = ln
-			default:
-				if strings.HasPrefix(ln, "(error") {
-					res[cur] = "error: " + ln
-				}
-			}
+		batch = append(batch, ob)
+		if len(batch) >= bsize {
+			flush()
 		}
 	}
-	return res
+	flush()
+	wg.Wait()
+	return total
 }
 
 func firstWord(out string) string {
